@@ -316,3 +316,50 @@ def string_pairs(ctx):
                 out.append(('a' * pos + c1 + 'tail', 'a' * pos + c2 + 'tail'))
                 out.append(('a' * pos + c2 + 'tail', 'a' * pos + c1 + 'tail'))
     return out
+
+def aligned_lines(ctx):
+    """multi-line rules (a blank may be followed by newlines) whose literals / names start in the same column of different lines"""
+    out = []
+    lits = [('10', I(10)), ('20', I(20)), ('1.5', F(1.5)), ('2.5', F(2.5)), ('"s"', S('s')), ('"t"', S('t')), ('[1, 2]', I(1)), ('[3, 4]', I(3)), ('["a"]', S('a')),
+            ('["b"]', S('b')), ('[1.5]', F(1.5)), ('1.0.0', S('1.0.0')), ('2.0.0', S('2.0.0')), ('true', ('b', True)), ('null', ('nil',))]
+    for (l1, v1) in lits:
+        for (l2, v2) in lits:
+            if l1 == l2:
+                continue
+            op1 = 'in' if l1.startswith('[') else 'eq'
+            op2 = 'in' if l2.startswith('[') else 'eq'
+            pad1 = 'alpha' if op1 == op2 else ('alphaa' if op1 == 'eq' and False else 'alpha')
+            # line 2 is "and b <op2> " : its literal starts in column 4 + 2 + len(op2) + 1; line 1 is "<name> <op1> "
+            col = 4 + 2 + len(op2) + 1
+            name1 = ('alphabetical' * 2)[:col - len(op1) - 2]
+            for conn, n2 in (('and', 'b'), ('or', 'bb')):
+                text = '%s %s %s \n%s %s %s %s' % (name1, op1, l1, conn, n2, op2, l2)
+                comps = ['%s %s %s' % (name1, op1, l1), '%s %s %s' % (n2, op2, l2)]
+                fn = (lambda a, b: a and b) if conn == 'and' else (lambda a, b: a or b)
+                for o in (obj({name1: v1, n2: v2}), obj({name1: v1, n2: v1}), obj({name1: v2, n2: v2}), obj({})):
+                    out.append((text, o, 'aligned-lines', (comps, fn)))
+    # three and more lines, same column for names too
+    out.append(('a eq 1 \nor b eq 2 \nor c eq 3', obj({'c': I(3)}), 'aligned-lines', None))
+    out.append(('a eq 1 \n\nor b eq 2 \n\n\nor c eq 3', obj({'b': I(2)}), 'aligned-lines', None))
+    out.append(('aa eq 1 \nor b eq 1 \nor c eq 1', obj({'aa': I(2), 'b': I(2), 'c': I(1)}), 'aligned-lines', None))
+    return out
+
+def shared_suffixes(ctx):
+    """paths that end in the same steps under different roots, and a root key named like an inner step"""
+    out = []
+    o1 = obj({'old': {'user': {'admin': ('b', True), 'quota': I(1), 'name': S('a')}}, 'new': {'user': {'admin': ('b', False), 'name': S('b')}}})
+    o2 = obj({'admin': ('b', True), 'quota': I(1), 'b': I(1), 'x': {'b': I(2)}, 'a': I(3), 'user': ('nil',)})
+    o3 = obj({'old': {'user': {'admin': ('b', True)}}, 'user': {'admin': ('b', False)}, 'admin': ('b', True)})
+    forms = [('{0} and {1}', ['old.user.admin eq true', 'new.user.admin eq false']), ('{0} and {1}', ['old.user.quota pr', 'new.user.quota pr']),
+             ('{0} and {1}', ['old.user.admin pr', 'user.admin pr']), ('{0} or {1}', ['new.user.quota pr', 'old.user.quota pr']),
+             ('{0} and {1}', ['old.user.name eq "a"', 'new.user.name eq "a"']), ('{1} and {0}', ['old.user.name eq "a"', 'new.user.name eq "b"']),
+             ('{0} and {1} and {2}', ['old.user.admin eq true', 'user.admin eq false', 'admin eq true']),
+             ('{0}', ['user.admin pr']), ('{0}', ['user.admin eq null']), ('{0}', ['user.admin eq true']), ('{0}', ['missing.admin pr']), ('{0}', ['missing.quota eq 1']),
+             ('{0}', ['x.a eq 3']), ('{0}', ['x.a pr']), ('{0}', ['x.zz.b eq 2']), ('{0}', ['x.zz.b pr']), ('{0}', ['zz.b eq 1']), ('{0}', ['zz.x.b eq 2']), ('{0}', ['user.b eq 1']),
+             ('{0} or {1}', ['missing.admin eq true', 'x.zz.b eq 2'])]
+    AND = lambda *a: all(a)
+    for fmt, comps in forms:
+        fn = (lambda *a: any(a)) if ' or ' in fmt else AND
+        for o in (o1, o2, o3):
+            out.append((fmt.format(*comps), o, 'shared-suffix', (comps, fn) if len(comps) > 1 else None))
+    return out
